@@ -151,6 +151,44 @@ theorem solution_selection [Inhabited α] (states obs : List String) (idx : List
   · apply h2
     simp [List.getD_eq_getElem?_getD, hj]
 
+/-! ### θ is bound by name -/
+
+/-- **Values go to the names they were given for.**  With `target_param = tp` (any subset, any order, no
+repetition) and a value vector of the same length, `_setParam` hands the model exactly the pairs
+`(tp[k], θ[k])`: the value looked up under the `k`-th supplied name is the `k`-th supplied value.  (What the
+model does with the pairs — override only the names mentioned — is C09 `binding_refines_spec`.) -/
+theorem theta_bound_by_name (numParam : Nat) (hnp : 0 < numParam) (tp : List String) (theta : List α)
+    (hlen : theta.length = tp.length) (hne : tp ≠ []) (hnd : tp.Nodup) :
+    setParam numParam (some tp) theta = .ok (.byName (tp.zip theta)) ∧
+    ∀ k (hk : k < tp.length), (tp.zip theta).lookup tp[k] = some (theta[k]'(by omega)) := by
+  constructor
+  · have h0 : (numParam == 0) = false := by simp; omega
+    by_cases h1 : tp.length > 1
+    · simp [setParam, h0, h1, hlen]
+    · match tp, theta, hlen, hne, h1 with
+      | [t], [v], _, _, _ => simp [setParam, h0]
+      | [], _, _, hne, _ => exact absurd rfl hne
+      | _ :: _ :: _, _, _, _, h1 => simp at h1
+  · intro k hk
+    induction tp generalizing theta k with
+    | nil => simp at hk
+    | cons t rest ih =>
+      cases theta with
+      | nil => simp at hlen
+      | cons v vs =>
+        have hnd' := List.nodup_cons.mp hnd
+        cases k with
+        | zero => simp [List.lookup]
+        | succ j =>
+          have hj : j < rest.length := by simpa using hk
+          have hne_t : (rest[j] == t) = false := by
+            simp only [beq_eq_false_iff_ne, ne_eq]
+            intro h
+            exact hnd'.1 (h ▸ List.getElem_mem hj)
+          have hrest : rest ≠ [] := by intro h; subst h; simp at hj
+          simp only [List.zip_cons_cons, List.getElem_cons_succ, List.lookup, hne_t]
+          exact ih vs (by simpa using hlen) hrest hnd'.2 j hj
+
 /-! ### cost -/
 
 /-- **Cost is the stated loss.**  With the trajectory rows `x i` (C02), the names resolved (`hidx`) and the
@@ -241,6 +279,8 @@ example : selectCols exTraj [2, 1] = [[2, 7], [4, 6], [6, 5]] := by decide
 /-- hypotheses of `cost_is_loss` are satisfiable and the value is the weighted sum of squares:
 row 2: (5-6)·3 → 9, row 3: (3-5)·3 → 36 -/
 example : costModel squareKer exCfg exTraj = .ok 45 := by decide
+/-- target_param = [γ, β] with values (3, 5): γ ↦ 3, β ↦ 5 -/
+example : setParam 2 (some ["gamma", "beta"]) [(3 : Int), 5] = .ok (.byName [("gamma", 3), ("beta", 5)]) := by decide
 /-- zero at the truth -/
 example : costModel squareKer { exCfg with y := [[2, 7], [4, 6], [6, 5]] } exTraj = .ok 0 := by decide
 /-- a rejected shape: three weights for two states and three observations of them -/
